@@ -26,6 +26,17 @@ func main() {
 		defer pprof.StopCPUProfile()
 	}
 	switch os.Args[1] {
+	case "locals":
+		// govc locals : (re)writes spec/locals.json from the current source (run after contracts are updated)
+		e, err := NewEngine("/repo", "/verif/spec")
+		if err != nil {
+			fmt.Fprintln(os.Stderr, err)
+			os.Exit(2)
+		}
+		if err := e.writeLocals("/verif/spec"); err != nil {
+			fmt.Fprintln(os.Stderr, err)
+			os.Exit(2)
+		}
 	case "dump":
 		cmdDump(os.Args[2:])
 	case "verify":
